@@ -10,6 +10,11 @@ CLAIMED = {
    text="Every operator method of the real value package is executed on every ordered pair of a boundary-value pool (exhaustive) and on seeded random tuples; each result is compared with an independent model of the README tables and with reference-free algebraic laws (symmetry, negation, relational consistency, slice/concat length laws). Held-on-what-was-observed; the pool sweeps are complete, the random part is a sample.",
    note="Trusts the harness model (harness/val) as the statement of the README tables; unspecified cells only demand 'documented error or right-shaped value, no crash'. Go's IEEE-754 float semantics trusted.",
    design="6/C11"),
+ "C01": dict(
+   technique="runtime monitoring: differential reference-model monitor (independent tree-walking reference semantics vs the real parser/compiler/VM) over generated and directed sessions, both compile modes, plain/tight/pregrown allocation",
+   text="Typed-generator sessions (closures, recursion, generators, every operator and operand source, planted faults of every class) and directed corpus sessions are executed statement by statement by an independent reference interpreter and by the real pipeline in REPL and script mode; value tree, output bytes and error class must agree. Evidence lists executed instruction shapes and compile-context classes.",
+   note="Trusts harness/rs as the executable README; programs relying on behaviour the README leaves open are detected by the reference and dropped (counted).",
+   design="6/C01"),
  "C15": dict(
    technique="runtime monitoring: exhaustive round-trip assertion over the operand-field space + OR-composition and function-layout sweeps (+ limit-crossing sessions)",
    text="The real EncodeSrc/New/decoders are executed on every slot x kind x address in -70000..70000 (complete), every opcode with composed operands, and the function-value layout lattice; each accepted encode must decode to exactly its inputs with all other fields zero, the only alternative being a refusal.",
